@@ -87,6 +87,10 @@ type c17Msg struct {
 //	op=forbid     : a new forbidden prompt vector is added to the firewall index
 //	op=invalidate : POST /cache/invalidate {"document_id": Doc}
 //	op=sleep      : real sleep of SleepMs (TTL expiry, thorough tier only)
+//	op=restart    : the gateway and the engine are closed, the engine is reopened on the same data directory and a
+//	                new gateway with the same configuration (same embedder, same upstream) takes over. Nothing of the
+//	                reference model changes: stored answers (with their creation times), forbidden prompts and
+//	                invalidations all went through the engine and are durable.
 type c17Step struct {
 	Op      string    `json:"op"`
 	Shape   string    `json:"shape,omitempty"`
@@ -245,6 +249,10 @@ type c17Ent struct {
 	Maybe   bool // existence not determined by the statement (answer to a pass-through request)
 	AgeSec  int  // seeds
 	T0, T1  time.Time
+	Step    int    // step whose request stored it (Dynamic entries; names the entry in messages, the engine id holds a clock value)
+	Inval   bool   // removed by an invalidate step because it cites the document
+	InvalBy string // "step 3 invalidate(document_id=...)"
+	Gone    string // generator only: why it is no longer present ("invalidated")
 	GenSt   int    // generator only: nominal state
 	Pos     c17Pos // generator only
 }
@@ -427,13 +435,65 @@ func c17Metric(s string) distance.DistanceMetric {
 type c17Runner struct {
 	c      *c17Case
 	m      *c17Model
-	eng    *engine.Engine
+	eng    *engine.Engine // the engine that is open right now (nil between Close and Open of a restart)
 	p      *AIProxy
+	tr     *http.Transport
+	opts   engine.Options
+	cfg    Config
 	up     *c17Upstream
 	emb    *c17Embedder
 	start  time.Time
 	stats  map[string]int
 	settle bool
+	// a background delete of the gateway (expired entry) was not seen to finish: the engine must not be closed under it
+	pendingDelete bool
+	restarts      int
+	sinceRestart  int // requests judged since the last restart (-1: no restart yet)
+}
+
+// open opens the engine on the case's data directory and puts a gateway with
+// the case's configuration in front of it. Used at the start and by a restart.
+func (r *c17Runner) open() error {
+	eng, err := engine.Open(r.opts)
+	if err != nil {
+		return err
+	}
+	r.eng = eng
+	p, err := NewAIProxy(r.cfg, eng)
+	if err != nil {
+		panic("harness: NewAIProxy: " + err.Error())
+	}
+	r.tr = &http.Transport{}
+	p.reverseProxy.Transport = r.tr // private connection pool per gateway
+	r.p = p
+	return nil
+}
+
+// shutdown closes the gateway's connections and the engine (once per engine).
+func (r *c17Runner) shutdown() error {
+	if r.settle {
+		// an answer to a pass-through request may or may not be stored; give a
+		// possible asynchronous save a moment before the engine is closed
+		time.Sleep(30 * time.Millisecond)
+	}
+	if r.tr != nil {
+		r.tr.CloseIdleConnections()
+		r.tr = nil
+	}
+	r.p = nil
+	if r.eng == nil {
+		return nil
+	}
+	eng := r.eng
+	r.eng = nil
+	return eng.Close()
+}
+
+func c17EntName(e *c17Ent) string {
+	if e.Dynamic {
+		return fmt.Sprintf("the answer stored by the request of step %d (sources %q)", e.Step, e.Sources)
+	}
+	return fmt.Sprintf("%s (sources %q)", e.ID, e.Sources)
 }
 
 func (r *c17Runner) listCache() map[string]map[string]any {
@@ -546,12 +606,6 @@ func c17Run(c *c17Case, stats map[string]int) (msg string) {
 	opts.AutoSaveThreshold = 0
 	opts.AofRewritePercentage = 0
 	opts.MaintenanceInterval = 1000 * time.Hour
-	eng, err := engine.Open(opts)
-	if err != nil {
-		panic("harness: engine.Open: " + err.Error())
-	}
-	defer eng.Close()
-
 	up := c17NewUpstream()
 	defer up.srv.Close()
 
@@ -581,13 +635,13 @@ func c17Run(c *c17Case, stats map[string]int) (msg string) {
 	cfg.RAGUseGraph = false
 	cfg.RAGUseHyDe = false
 	cfg.RAGUseAdaptive = false
-	p, err := NewAIProxy(cfg, eng)
-	if err != nil {
-		panic("harness: NewAIProxy: " + err.Error())
+
+	r := &c17Runner{c: c, m: m, opts: opts, cfg: cfg, up: up, emb: emb, stats: stats, sinceRestart: -1}
+	if err := r.open(); err != nil {
+		panic("harness: engine.Open: " + err.Error())
 	}
-	tr := &http.Transport{}
-	p.reverseProxy.Transport = tr // private connection pool per case
-	defer tr.CloseIdleConnections()
+	defer func() { _ = r.shutdown() }() // closes whichever engine is open at the end (each engine is closed exactly once)
+	eng := r.eng
 
 	if err := eng.VCreate(c17FwIndex, c17Metric(c.FwMetric), 16, 200, distance.Float32, "", nil, nil, nil); err != nil {
 		panic("harness: create firewall index: " + err.Error())
@@ -625,14 +679,7 @@ func c17Run(c *c17Case, stats map[string]int) (msg string) {
 		}
 	}
 
-	r := &c17Runner{c: c, m: m, eng: eng, p: p, up: up, emb: emb, start: time.Now(), stats: stats}
-	defer func() {
-		if r.settle {
-			// an answer to a pass-through request may or may not be stored; give a
-			// possible asynchronous save a moment before the engine is closed
-			time.Sleep(30 * time.Millisecond)
-		}
-	}()
+	r.start = time.Now()
 	for i, st := range c.Steps {
 		if time.Since(r.start) > 25*time.Second {
 			stats["abort:slow"]++
@@ -644,7 +691,7 @@ func c17Run(c *c17Case, stats map[string]int) (msg string) {
 		case "req":
 			v, stop = r.stepReq(i, st)
 		case "forbid":
-			if err := eng.VAdd(c17FwIndex, st.ID, append([]float32{}, st.Vec...), map[string]any{"text": st.ID}); err != nil {
+			if err := r.eng.VAdd(c17FwIndex, st.ID, append([]float32{}, st.Vec...), map[string]any{"text": st.ID}); err != nil {
 				panic("harness: forbid: " + err.Error())
 			}
 			m.forb = append(m.forb, c17Stored{ID: st.ID, Vec: st.Vec})
@@ -654,6 +701,8 @@ func c17Run(c *c17Case, stats map[string]int) (msg string) {
 		case "sleep":
 			time.Sleep(time.Duration(st.SleepMs) * time.Millisecond)
 			stats["op:sleep"]++
+		case "restart":
+			v, stop = r.stepRestart(i, st)
 		}
 		if v != "" {
 			r.settle = true // a save the statement did not ask for may still be in flight
@@ -693,8 +742,20 @@ func (r *c17Runner) stepReq(i int, st c17Step) (violation string, stop bool) {
 	what := r.describe(i, st, text, d)
 	got := fmt.Sprintf("got status %d, upstream requests +%d, X-Kektor-Cache=%q, body %q", code, dh, hdr, c17Short(body))
 	stats["req"]++
+	afterRestart := r.sinceRestart >= 0
+	if afterRestart {
+		r.sinceRestart++
+		stats["req-after-restart"]++
+	}
 
 	if blocked {
+		if afterRestart {
+			if d.Sem {
+				stats["exp:after-restart:block-semantic"]++
+			} else {
+				stats["exp:after-restart:block-pattern"]++
+			}
+		}
 		switch {
 		case d.Pat && d.Sem:
 			stats["exp:block-pattern+semantic"]++
@@ -741,7 +802,7 @@ func (r *c17Runner) stepReq(i int, st c17Step) (violation string, stop bool) {
 			return fmt.Sprintf("%s => benign request must be forwarded; %s", what, got), true
 		}
 		if forwardedOK && c.CacheOn && !stream {
-			m.ents = append(m.ents, &c17Ent{ID: fmt.Sprintf("maybe-%d", i), Vec: vec, Resp: body, Present: true, Dynamic: true, Maybe: true, T0: n0, T1: n1})
+			m.ents = append(m.ents, &c17Ent{ID: fmt.Sprintf("maybe-%d", i), Vec: vec, Resp: body, Present: true, Dynamic: true, Maybe: true, T0: n0, T1: n1, Step: i})
 			r.settle = true
 		}
 		return "", false
@@ -777,6 +838,9 @@ func (r *c17Runner) stepReq(i int, st c17Step) (violation string, stop bool) {
 	}
 	if len(d.LiveIn) > 0 {
 		stats["exp:cache-hit"]++
+		if afterRestart {
+			stats["exp:after-restart:cache-hit"]++
+		}
 		if !hitOK() {
 			var resp []string
 			for _, e := range d.LiveIn {
@@ -791,8 +855,30 @@ func (r *c17Runner) stepReq(i int, st c17Step) (violation string, stop bool) {
 	} else {
 		stats["exp:miss"]++
 	}
+	// answers that were in range of this request but have been invalidated (they must stay gone, also across a restart)
+	var gone []string
+	for _, e := range m.ents {
+		if e.Inval && c17Classify(c.CacheMetric, float64(c.CacheThr), vec, e.Vec) == c17In {
+			gone = append(gone, fmt.Sprintf("%s, removed by %s", c17EntName(e), e.InvalBy))
+		}
+	}
+	if len(gone) > 0 {
+		stats["exp:miss-near-invalidated"]++
+		if afterRestart {
+			stats["exp:after-restart:miss-near-invalidated"]++
+		}
+	} else if afterRestart {
+		stats["exp:after-restart:miss"]++
+	}
 	if !forwardedOK {
-		return fmt.Sprintf("%s => farther than the cache distance from every stored query younger than the TTL, must reach upstream and return its answer %q; %s", what, c17Short(upBody), got), true
+		note := ""
+		if len(gone) > 0 {
+			note = fmt.Sprintf(" (in range of invalidated answers only: %v)", gone)
+		}
+		if r.restarts > 0 {
+			note += fmt.Sprintf(" [%d restart(s) so far]", r.restarts)
+		}
+		return fmt.Sprintf("%s => farther than the cache distance from every stored query younger than the TTL%s, must reach upstream and return its answer %q; %s", what, note, c17Short(upBody), got), true
 	}
 	// the answer is stored asynchronously: wait for it
 	var sources []string
@@ -829,7 +915,7 @@ func (r *c17Runner) stepReq(i int, st c17Step) (violation string, stop bool) {
 	if newID == "" {
 		return fmt.Sprintf("%s => was answered by upstream (200) but the answer was not stored in the cache index within 2 min, so a repeat can never be served from the cache", what), true
 	}
-	m.ents = append(m.ents, &c17Ent{ID: newID, Vec: vec, Resp: body, Sources: sources, Present: true, Dynamic: true, T0: n0, T1: time.Now()})
+	m.ents = append(m.ents, &c17Ent{ID: newID, Vec: vec, Resp: body, Sources: sources, Present: true, Dynamic: true, T0: n0, T1: time.Now(), Step: i})
 	if len(d.ExpIn) == 1 {
 		// the gateway deletes the expired entry it met, asynchronously
 		old := d.ExpIn[0]
@@ -843,6 +929,7 @@ func (r *c17Runner) stepReq(i int, st c17Step) (violation string, stop bool) {
 		}
 		if old.Present {
 			stats["note:expired-entry-not-deleted"]++
+			r.pendingDelete = true
 		}
 	}
 	return "", false
@@ -872,6 +959,8 @@ func (r *c17Runner) stepInvalidate(i int, st c17Step) (violation string, stop bo
 				keptWrong = append(keptWrong, fmt.Sprintf("%s(sources %q)", e.ID, e.Sources))
 			}
 			e.Present = false
+			e.Inval = true
+			e.InvalBy = fmt.Sprintf("step %d invalidate(document_id=%q)", i, st.Doc)
 			continue
 		}
 		if !present {
@@ -893,6 +982,63 @@ func (r *c17Runner) stepInvalidate(i int, st c17Step) (violation string, stop bo
 	}
 	if len(removedWrong) > 0 {
 		return fmt.Sprintf("step %d invalidate(document_id=%q) answered %d %s: cached answers that do NOT cite the document were removed: %v", i, st.Doc, w.Code, c17Short(strings.TrimSpace(w.Body.String())), removedWrong), true
+	}
+	return "", false
+}
+
+// stepRestart: the gateway and the engine are closed and started again on the
+// same data directory. The reference model is untouched. Besides the requests
+// that follow, the cache index itself is looked at (as stepInvalidate does):
+// an answer removed by an invalidation must not be back, an answer younger than
+// the TTL that the model still holds must not be gone.
+func (r *c17Runner) stepRestart(i int, st c17Step) (violation string, stop bool) {
+	m, stats := r.m, r.stats
+	if r.pendingDelete {
+		stats["abort:restart-with-background-delete-pending"]++
+		return "", true
+	}
+	if err := r.shutdown(); err != nil {
+		panic("harness: engine.Close before the restart: " + err.Error())
+	}
+	if err := r.open(); err != nil {
+		return fmt.Sprintf("step %d restart: the engine could not be reopened on its own data directory after a clean Close: %v", i, err), true
+	}
+	r.restarts++
+	r.sinceRestart = 0
+	stats["op:restart"]++
+	n0 := time.Now()
+	after := r.listCache()
+	n1 := time.Now()
+	var back, lost []string
+	nInval, nLive := 0, 0
+	for _, e := range m.ents {
+		_, present := after[e.ID]
+		switch {
+		case e.Inval:
+			nInval++
+			if present {
+				back = append(back, fmt.Sprintf("%s, removed by %s", c17EntName(e), e.InvalBy))
+			}
+		case e.Present && !e.Maybe && r.stateAt(e, n0, n1) == c17Live:
+			nLive++
+			if !present {
+				lost = append(lost, c17EntName(e))
+			}
+		}
+	}
+	if nInval > 0 {
+		stats["exp:restart-keeps-invalidated-answers-out"]++
+	}
+	if nLive > 0 {
+		stats["exp:restart-keeps-live-answers"]++
+	}
+	sort.Strings(back)
+	sort.Strings(lost)
+	if len(back) > 0 {
+		return fmt.Sprintf("step %d restart (engine closed and reopened on the same data directory, new gateway with the same configuration): invalidated cached answers are back in the cache index: %v", i, back), true
+	}
+	if len(lost) > 0 {
+		return fmt.Sprintf("step %d restart (engine closed and reopened on the same data directory, new gateway with the same configuration): cached answers younger than the TTL that nothing invalidated are no longer in the cache index: %v", i, lost), true
 	}
 	return "", false
 }
